@@ -97,6 +97,10 @@ func genArtsTree(rng *Rng, odd int) any {
 			o = o.Set(name, JObj{})
 		case 2:
 			o = o.Set(name, O("sha256", genHex(rng, 8), "sha512", genHex(rng, 8)))
+		case 3:
+			// digests are hexadecimal strings in EITHER letter case and are kept exactly as written
+			// (seeded change c11-loader-lowercases-digests)
+			o = o.Set(name, O("sha256", strings.ToUpper(genHex(rng, 8))+"aBcDeF"))
 		default:
 			o = o.Set(name, O("sha256", genHex(rng, 8)))
 		}
